@@ -34,7 +34,8 @@ pub struct SeedSpec {
     pub boundary: u64,
     pub eps: u64,
     pub free_slots: usize,
-    /// an extra filler value of this many bytes, so that value offsets are beyond 1 KiB (0 = none)
+    /// an extra filler value of this many bytes, so that value offsets are beyond 1 KiB (0 = none; an odd
+    /// length: the filler is stored before the slots that are freed, so that those lie beyond 1 KiB too)
     pub val_pad: u64,
 }
 
@@ -69,13 +70,19 @@ pub fn seed_steps(kt: KtId, n: u64, filler_bucket: u64, spec: &SeedSpec, seed: u
     };
     // 1. slots that will be freed at the end (value slots of 16, 24 and 256 bytes; key slots of 16/24)
     let free_val_lens = [3u64, 20, 200, 20];
+    // an odd val_pad means: the pad entry comes first, so that the freed slots (and whatever reuses them) lie beyond it
+    if spec.val_pad % 2 == 1 {
+        let k = next_key(small_key_len, &mut used);
+        let first = live.is_empty();
+        put(k, spec.val_pad, &mut steps, &mut live, &mut val_end, &mut key_end, first);
+    }
     for i in 0..spec.free_slots {
         let k = next_key(small_key_len, &mut used);
         to_free.push(k.clone());
         let first = live.is_empty();
         put(k, free_val_lens[i % free_val_lens.len()], &mut steps, &mut live, &mut val_end, &mut key_end, first);
     }
-    if spec.val_pad > 0 {
+    if spec.val_pad > 0 && spec.val_pad % 2 == 0 {
         let k = next_key(small_key_len, &mut used);
         let first = live.is_empty();
         put(k, spec.val_pad, &mut steps, &mut live, &mut val_end, &mut key_end, first);
